@@ -97,6 +97,8 @@ MUTANTS = [
     ('codegen.py', "        Wj._values = tuple(v / j for v in Wj._values)", "        Wj._values = tuple(v / (j + 1) for v in Wj._values)", 'outerexp', 'codegen_outerexp == sum'),
     ('codegen.py', "    k = alg.d\n", "    k = alg.d // 2\n", 'outerexp', 'codegen_outerexp == sum'),
     ('codegen.py', "    odd_Ws = codegen_outerexp(x, asterms=True)[1::2]", "    odd_Ws = codegen_outerexp(x, asterms=True)[0::2]", 'outerexp', 'codegen_outersin == sum'),
+    ('codegen.py', "def codegen_rc(x, y):", "def codegen_rc(x, y):\n    if x.grades[-1] < y.grades[-1]:\n        return {}", 'prodgen', 'codegen_rc on generic operands'),
+    ('codegen.py', "def codegen_rc(x, y):", "def codegen_rc(x, y):\n    if x.grades[-1] < y.grades[0]:\n        return {}", 'prodgen', 'pass'),       # a correct early exit
     # ---- harmless refactorings: must stay green (no VIOLATION); out-of-subset is acceptable (undecided), refutation is a false alarm
     ('codegen.py', "            termstr = vx * vy if sign > 0 else (- vx * vy)\n            if key_out in res:\n                res[key_out] += termstr\n            else:\n                res[key_out] = termstr",
      "            term = vx * vy if sign > 0 else (- vx * vy)\n            if key_out not in res:\n                res[key_out] = term\n            else:\n                res[key_out] = res[key_out] + term", 'codegen', 'pass'),
@@ -140,6 +142,9 @@ def build_group(H, group):
         AC.vc_new(H)
     elif group == 'tape':
         T.vc_tape_operators(H)
+    elif group == 'prodgen':
+        from contracts import inverse_c as IC
+        IC.vc_products_generic(H, 'quick', only_ops=('lc', 'rc', 'rp'))
     elif group == 'outerexp':
         from contracts import inverse_c as IC
         IC.vc_outerexp_generic(H, 'quick')
